@@ -1,6 +1,6 @@
 //! TextArchive state machine (C07): replay of spec-generated (state, call) cases and recording of
 //! random histories for trace validation by spec/Trace_TextArchive.tla.
-use crate::util::*;
+use mvh::util::*;
 use mila::{Endian, TextArchive, TextArchiveFormat};
 use serde_json::{json, Value};
 
@@ -195,10 +195,13 @@ fn record(out_path: &str, runs: usize, len: usize) {
     out.finish();
 }
 
-pub fn main(args: &[String]) {
+fn main() {
+    install_panic_hook();
+    let args: Vec<String> = std::env::args().skip(1).collect();
+    let args = &args[..];
     match args.first().map(|s| s.as_str()) {
         Some("replay") if args.len() == 3 => replay(&args[1], &args[2]),
         Some("record") if args.len() == 4 => record(&args[1], args[2].parse().unwrap(), args[3].parse().unwrap()),
-        _ => usage("mvh textarchive replay <cases.ndjson> <out.ndjson> | record <out.ndjson> <runs> <len>"),
+        _ => usage("mvh_text replay <cases.ndjson> <out.ndjson> | record <out.ndjson> <runs> <len>"),
     }
 }
